@@ -290,10 +290,15 @@ def _script(args, timeout):
 
 
 def bucket(n):
+    """key suffix for a threshold: `:n>=<power of two below it>`, or nothing when the threshold lies within 1/8 of a power
+    of two (then the key names construct and error class only, so a drift of a few frames does not change it)"""
     b = 1
     while b * 2 <= n:
         b *= 2
-    return b
+    for edge in (b, 2 * b):
+        if abs(n - edge) * 8 <= edge:
+            return ""
+    return f":n>={b}"
 
 
 def start_shapes(ctx):
@@ -333,9 +338,9 @@ def finish_shapes(jobs, res, stats):
             found[f"{envname}:{d['shape']}"] = [n0, bad[1]]
             src = (g.SHAPES.get(d["shape"]) or g.EXT_SHAPES[d["shape"]])(n0)
             if cls in ("RecursionError", "MemoryError", "Hang"):
-                key = f"C01:{cls}:{d['shape']}:n>={bucket(n0)}"
+                key = f"C01:{cls}:{d['shape']}{bucket(n0)}"
             else:
-                key = f"C01:{bad[1].replace(':' + d['shape'], '')}:{d['shape']}:n>={bucket(n0)}"
+                key = f"C01:{bad[1].replace(':' + d['shape'], '')}:{d['shape']}{bucket(n0)}"
             res.violate(key, f"{envname}: shape {d['shape']} fails from n = {n0} on: {bad[2]} (frames {bad[3]}); source "
                         f"{src[:60]!r}... ({len(src)} chars)", {"env": envname, "shape": d["shape"], "n": n0, "source": src})
         missing = [s for s in shapes if s not in done]
